@@ -6,6 +6,7 @@ package main
 import (
 	"bytes"
 	"fmt"
+	"github.com/osteele/liquid/render"
 	"hash/fnv"
 	"os"
 	"os/exec"
@@ -211,6 +212,23 @@ func runSession(c J) J {
 	hoisted := map[string]any{}
 	spell := spellFromJSON(c["spell"])
 	pr := newPrinter(spell)
+	// sources registered through ParseTemplateAndCache (no file of that name exists) - on every engine of the session
+	type cachedSrc struct{ name, content string }
+	var cacheSrcs []cachedSrc
+	for _, fx := range jarr(c, "cache") {
+		fa, _ := fx.([]any)
+		if len(fa) != 2 {
+			continue
+		}
+		content, err := pr.fileSource(fa)
+		if err != nil {
+			obs["outcome"] = "skip"
+			obs["msg"] = err.Error()
+			return obs
+		}
+		cacheSrcs = append(cacheSrcs, cachedSrc{bytesOf(fa[0]), content})
+	}
+	var cacheErr error
 	newEngine := func() *liquid.Engine {
 		e := liquid.NewEngine()
 		if spell.Raw != nil {
@@ -218,6 +236,14 @@ func runSession(c J) J {
 		}
 		if jbool(c, "strict") {
 			e.StrictVariables()
+		}
+		for _, cs := range cacheSrcs {
+			cbuf := []byte(cs.content)
+			_, err := e.ParseTemplateAndCache(cbuf, cs.name, 1)
+			scribble(cbuf)
+			if err != nil && cacheErr == nil {
+				cacheErr = err
+			}
 		}
 		return e
 	}
@@ -263,26 +289,10 @@ func runSession(c J) J {
 	}
 	obs["texts"] = srcs
 	eng := newEngine()
-	// sources registered through ParseTemplateAndCache (no file of that name exists)
-	for _, fx := range jarr(c, "cache") {
-		fa, _ := fx.([]any)
-		if len(fa) != 2 {
-			continue
-		}
-		content, err := pr.fileSource(fa)
-		if err != nil {
-			obs["outcome"] = "skip"
-			obs["msg"] = err.Error()
-			return obs
-		}
-		cbuf := []byte(content)
-		_, err = eng.ParseTemplateAndCache(cbuf, bytesOf(fa[0]), 1)
-		scribble(cbuf)
-		if err != nil {
-			obs["outcome"] = "skip"
-			obs["msg"] = "cache entry does not parse: " + err.Error()
-			return obs
-		}
+	if cacheErr != nil {
+		obs["outcome"] = "skip"
+		obs["msg"] = "cache entry does not parse: " + cacheErr.Error()
+		return obs
 	}
 	tpls := make([]*liquid.Template, len(srcs))
 	parseErr := make([]liquid.SourceError, len(srcs))
@@ -304,6 +314,9 @@ func runSession(c J) J {
 			bind = shuffled(bind, i)
 		}
 		ev := J{"t": t, "b": b, "entry": entry, "i": i}
+		if snap && i%5 == 0 {
+			otherEngineNoise()
+		}
 		if snap {
 			ev["before"] = snapshotEnv(envs[b])
 			ev["beforesig"] = envSig(envs[b])
@@ -470,6 +483,26 @@ func runSession(c J) J {
 	}()
 	obs["outcome"] = "ok"
 	return obs
+}
+
+// otherEngineNoise configures and uses another engine of the process: its filters, tags, blocks, delimiters and
+// strictness are its own - nothing of it may show in what the session's engine renders.
+func otherEngineNoise() {
+	o := liquid.NewEngine()
+	o.RegisterFilter("upcase", func(s string) string { return "<" + s + ">" })
+	o.RegisterFilter("size", func(v any) int { return -1 })
+	o.RegisterFilter("join", func(a []any, sep func(string) string) string { return "J" })
+	o.RegisterFilter("plus", func(a, b int) int { return 0 })
+	o.RegisterFilter("lqh_other", func(s string) string { return s })
+	o.RegisterTag("assign", func(c render.Context) (string, error) { return "ASSIGN", nil })
+	o.RegisterTag("lqh_other_tag", func(c render.Context) (string, error) { return "T", nil })
+	o.RegisterBlock("lqh_other_block", func(c render.Context) (string, error) { return c.InnerString() })
+	o.Delims("<<", ">>", "<%", "%>")
+	o.StrictVariables()
+	func() {
+		defer func() { recover() }()
+		o.ParseAndRenderString(`<< "x" | upcase >><% assign q = 1 %><% lqh_other_block %>b<% endlqh_other_block %><< undefined >>`, map[string]any{})
+	}()
 }
 
 // runCLI renders through the command-line tool (string bindings only, via --env).
